@@ -98,6 +98,8 @@ type Cluster struct {
 	ZKLookups []time.Duration
 	ZKAfterClose int
 	Errors    []string // protocol errors seen by servers
+	WConns    []*WConn // tier W: every accepted connection
+	MultiSeq  int
 	nextID    uint64
 	resets    map[string][]func() // server -> live connections' reset callbacks
 	curRow    string
